@@ -42,6 +42,11 @@ structure RelOut (env : List Entry) (r : List HTok) (out : List PTok) : Prop whe
   toks : r.map (·.tok) = ppTokens out
   sup : ∀ t ∈ r, ∀ x ∈ disabledNames env, x ∈ t.hide
 
+/-- the tokens of `ls` that name an enabled macro carry no paint but the names of the disabled entries (`Rel.sub`) -/
+def Exact (env : List Entry) (ls : List HTok) : Prop :=
+  ∀ t ∈ ls, ∀ n, t.tok = .id n → (∃ e ∈ env, e.m.name = n ∧ e.disabled = false) →
+    ∀ x ∈ t.hide, x ∈ disabledNames env
+
 /-! ## tokens without white space -/
 
 theorem ppTokens_nil : ppTokens [] = [] := rfl
@@ -711,8 +716,8 @@ theorem rel_body {env : List Entry} {n : String} {mi : Nat} {e : Entry} (hsel : 
     (hsup : ∀ x, (x = n ∨ x ∈ disabledNames env) → x ∈ hsNew)
     (hsub : ∀ x ∈ hsNew, x = n ∨ x ∈ disabledNames env)
     (htoks : ∀ i, i < np → (eargs.getD i []).map (·.tok) = ppTokens (args'.getD i []))
-    (hea : ∀ (i : Nat) (ea : List HTok), eargs[i]? = some ea → ∃ a', args'[i]? = some a' ∧ ea.map (·.tok) = ppTokens a')
-    (hod : ∀ a' ∈ args', OnlyDisabled env a')
+    (hea : ∀ (i : Nat) (ea : List HTok), eargs[i]? = some ea → ∃ a', args'[i]? = some a' ∧ ea.map (·.tok) = ppTokens a' ∧
+      (OnlyDisabled env a' ∨ Exact env ea))
     (hsubst : substitute e.m.body args' = .ok body') :
     Rel (disable env mi) ((ppTokens e.m.body).flatMap (outTok eargs hsNew)) body' := by
   have hdn : ∀ x, x ∈ disabledNames (disable env mi) ↔ x = n ∨ x ∈ disabledNames env := by
@@ -725,21 +730,32 @@ theorem rel_body {env : List Entry} {n : String} {mi : Nat} {e : Entry} (hsel : 
     · rw [h]; exact hx'
     · rw [h]; exact List.mem_append_right _ hx'
   · intro t ht x htx hen y hy
-    rcases outTok_hide eargs hsNew _ t ht with h | ⟨i, ea, t0, hget, ht0, htk, _⟩
+    rcases outTok_hide eargs hsNew _ t ht with h | ⟨i, ea, t0, hget, ht0, htk, hhide⟩
     · rw [h] at hy
       exact (hdn y).mpr (hsub y hy)
-    · -- a token out of an expanded argument names disabled entries only
-      exfalso
-      obtain ⟨a', ha', hmap⟩ := hea i ea hget
-      have hmem : Tok.id x ∈ ppTokens a' := by
-        rw [← hmap, ← htx, htk]
-        exact List.mem_map.mpr ⟨t0, ht0, rfl⟩
-      obtain ⟨pt, hpt, hptk⟩ := mem_ppTokens hmem
+    · obtain ⟨a', ha', hmap, hok⟩ := hea i ea hget
       obtain ⟨e', he', hname, hen'⟩ := hen
       obtain ⟨e0, he0, hm, himp⟩ := mem_disable he'
-      have := hod a' (List.mem_of_getElem? ha') pt hpt x hptk e0 he0 (by rw [← hm]; exact hname)
-      rw [himp this] at hen'
-      cases hen'
+      rcases hok with hod | hex
+      · -- a token out of an expanded argument names disabled entries only
+        exfalso
+        have hmem : Tok.id x ∈ ppTokens a' := by
+          rw [← hmap, ← htx, htk]
+          exact List.mem_map.mpr ⟨t0, ht0, rfl⟩
+        obtain ⟨pt, hpt, hptk⟩ := mem_ppTokens hmem
+        have := hod pt hpt x hptk e0 he0 (by rw [← hm]; exact hname)
+        rw [himp this] at hen'
+        cases hen'
+      · -- or nothing was expanded in the argument: its tokens carry the hide set of the tokens around the invocation
+        rw [hhide] at hy
+        rcases List.mem_append.mp hy with hy | hy
+        · have he0en : e0.disabled = false := by
+            cases hd : e0.disabled with
+            | false => rfl
+            | true => rw [himp hd] at hen'; cases hen'
+          have := hex t0 ht0 x (by rw [← htk]; exact htx) ⟨e0, he0, by rw [← hm]; exact hname, he0en⟩ y hy
+          exact (hdn y).mpr (Or.inr this)
+        · exact (hdn y).mpr (hsub y hy)
 
 
 /-- the token at the end of the expanded replacement list is kept when the rest of the source follows it -/
@@ -853,6 +869,65 @@ theorem fixArgs_eq (np : Nat) (largs : List (List HTok)) (args : List (List PTok
     rw [htake]
     simp [fixArgs, hne, hlen]
 
+/-- `Kept` on the model side is `KeepS` on the reference side -/
+theorem keepS_of_kept {env : List Entry} {t : PTok} {rest : List PTok} {ts : HTok} {ls' : List HTok}
+    (hk : Kept env t rest) (hts : ts.tok = t.tok) (htoks' : ls'.map (·.tok) = ppTokens rest)
+    (hsup : ∀ x ∈ disabledNames env, x ∈ ts.hide) : KeepS (specTable env) ts ls' := by
+  intro n hn
+  have htn : t.tok = .id n := by rw [← hts]; exact hn
+  cases hfind : find (specTable env) n with
+  | none => exact Or.inr (Or.inl rfl)
+  | some m =>
+    obtain ⟨e, he, hm, hname⟩ := find_specTable_some hfind
+    rcases hk.2 n htn e he hname with hd | ⟨hf, hsp⟩
+    · left
+      have : n ∈ ts.hide := hsup n (mem_disabledNames.mpr ⟨e, he, hd, hname⟩)
+      simpa using this
+    · right; right
+      refine ⟨m, paramNames e.m.numParams, rfl, by rw [hm]; simp [ofMacro, hf, paramNames], ?_⟩
+      intro hh rest'' heq
+      have : startsParen rest = true := by
+        unfold startsParen; rw [firstTok_eq_head, ← htoks', heq]; rfl
+      rw [hsp] at this; cases this
+
+/-- a list none of whose tokens starts an operation is left as it is by the reference: the very same tokens, with the
+hide sets they had -/
+theorem allKept_sexp {env : List Entry} : ∀ (a : List PTok), AllKept env a → ∀ la, Rel env la a →
+    SExp (specTable env) la la
+  | [], _, la, hrel => by
+    have : la = [] := by simpa [ppTokens_nil] using hrel.toks
+    subst this; exact SExp.nil
+  | t :: rest, hk, la, hrel => by
+    by_cases hw : t.tok.isWhitespace = true
+    · exact allKept_sexp rest hk.2 la
+        ⟨by rw [← ppTokens_cons_ws t rest hw]; exact hrel.toks, hrel.sup, hrel.sub⟩
+    · have hw' : t.tok.isWhitespace = false := by simpa using hw
+      have htoks := hrel.toks
+      rw [ppTokens_cons t rest hw'] at htoks
+      cases la with
+      | nil => simp at htoks
+      | cons ts ls' =>
+        simp only [List.map_cons, List.cons.injEq] at htoks
+        obtain ⟨hts, htoks'⟩ := htoks
+        have hrel' : Rel env ls' rest :=
+          ⟨htoks', fun x hx => hrel.sup x (by simp [hx]), fun x hx => hrel.sub x (by simp [hx])⟩
+        exact SExp.keep ts ls' ls' (keepS_of_kept hk.1 hts htoks' (hrel.sup ts (by simp)))
+          (allKept_sexp rest hk.2 ls' hrel')
+
+/-- ... and by rssl: the only derivation is the one that keeps every token -/
+theorem tame_allKept {env : List Entry} {a a' : List PTok} (h : Tame env a a') : AllKept env a → a' = a := by
+  induction h with
+  | nil env => intro _; rfl
+  | keep env t rest out _ _ ih => intro hk; rw [ih hk.2]
+  | invoke env n b rest mi e rest' args args' body' R out hsel hra _ _ _ _ _ _ _ _ _ _ =>
+    intro hk
+    exfalso
+    rcases hk.1.2 n rfl e (List.mem_of_getElem? hsel.get) hsel.name with hd | ⟨hf, hsp⟩
+    · rw [hsel.enabled] at hd; cases hd
+    · obtain ⟨bb, tail, htrim, _, _⟩ := readArgs_fn e.m rest rest' args hf hra
+      rw [startsParen_of_trimStartAll rest bb tail htrim] at hsp
+      cases hsp
+
 /-- **A tame derivation is what the reference algorithm computes**, on every reference token list that is related
 to the model's by `Rel` (hide sets = names of the disabled entries). -/
 theorem tame_spec {env : List Entry} {l out : List PTok} (h : Tame env l out) :
@@ -951,7 +1026,6 @@ theorem tame_spec {env : List Entry} {l out : List PTok} (h : Tame env l out) :
             · exact Or.inr (htsub x hx)
           · intro i hi; omega
           · intro i ea h; simp at h
-          · intro a' ha'; cases ha'
           · exact hsub
         obtain ⟨Rs, hsR, hroR⟩ := ihbody (wf_disable hwf) _ hrelb
         rw [specTable_disable] at hsR
@@ -993,7 +1067,8 @@ theorem tame_spec {env : List Entry} {l out : List PTok} (h : Tame env l out) :
             · cases h
             · cases ha0
           have hexp : ∀ (i : Nat) (la : List HTok), largs[i]? = some la →
-              ∃ ea, SExp (specTable env) la ea ∧ ∃ a', args'[i]? = some a' ∧ RelOut env ea a' := by
+              ∃ ea, SExp (specTable env) la ea ∧ ∃ a', args'[i]? = some a' ∧ RelOut env ea a' ∧
+                (OnlyDisabled env a' ∨ Exact env ea) := by
             intro i la hla
             have hi : i < largs.length := (List.getElem?_eq_some_iff.mp hla).1
             have hi2 : i < args.length := by rw [← hargsrel.1]; exact hi
@@ -1004,23 +1079,30 @@ theorem tame_spec {env : List Entry} {l out : List PTok} (h : Tame env l out) :
             have hrela : Rel env la args[i] :=
               ⟨hargsrel.2 i la _ hla ha, fun x hx => hrel.sup x (hinls x (hmem x hx)),
                 fun x hx => hrel.sub x (hinls x (hmem x hx))⟩
-            obtain ⟨ea, hsea, hroea⟩ := ihargs i _ _ ha ha' hwf la hrela
-            exact ⟨ea, hsea, _, ha', hroea⟩
+            rcases hod i _ _ ha ha' with hd | hak
+            · obtain ⟨ea, hsea, hroea⟩ := ihargs i _ _ ha ha' hwf la hrela
+              exact ⟨ea, hsea, _, ha', hroea, Or.inl hd⟩
+            · -- nothing happens in this argument on either side: the reference keeps the very same tokens
+              have heq : args'[i] = args[i] := tame_allKept (hargs i _ _ ha ha') hak
+              exact ⟨la, allKept_sexp _ hak la hrela, _, ha',
+                ⟨by rw [heq]; exact hrela.toks, hrela.sup⟩, Or.inr hrela.sub⟩
           obtain ⟨eargs0, helen, heargs⟩ := exists_list largs
-            (fun i la ea => SExp (specTable env) la ea ∧ ∃ a', args'[i]? = some a' ∧ RelOut env ea a') hexp
+            (fun i la ea => SExp (specTable env) la ea ∧ ∃ a', args'[i]? = some a' ∧ RelOut env ea a' ∧
+              (OnlyDisabled env a' ∨ Exact env ea)) hexp
           obtain ⟨hfix, hfixlen⟩ := fixArgs_eq e.m.numParams largs args hargsrel har
           have hnple : e.m.numParams ≤ largs.length := by
             rw [List.length_take] at hfixlen; omega
           -- every parameter has its argument on both sides
           have hget : ∀ i, i < e.m.numParams → ∃ la ea a', largs[i]? = some la ∧ eargs0[i]? = some ea ∧
-              args'[i]? = some a' ∧ SExp (specTable env) la ea ∧ RelOut env ea a' := by
+              args'[i]? = some a' ∧ SExp (specTable env) la ea ∧ RelOut env ea a' ∧
+              (OnlyDisabled env a' ∨ Exact env ea) := by
             intro i hi
             have h1 : i < largs.length := by omega
             have h2 : i < eargs0.length := by omega
             have hla : largs[i]? = some largs[i] := List.getElem?_eq_getElem h1
             have hea : eargs0[i]? = some eargs0[i] := List.getElem?_eq_getElem h2
-            obtain ⟨hse, a', ha', hro⟩ := heargs i _ _ hla hea
-            exact ⟨_, _, a', hla, hea, ha', hse, hro⟩
+            obtain ⟨hse, a', ha', hro, hok⟩ := heargs i _ _ hla hea
+            exact ⟨_, _, a', hla, hea, ha', hse, hro, hok⟩
           have hrelb : Rel (disable env mi)
               ((ppTokens e.m.body).flatMap (outTok (eargs0.take e.m.numParams)
                 (n :: ts.hide.filter (hs'.contains ·)))) body' := by
@@ -1038,19 +1120,18 @@ theorem tame_spec {env : List Entry} {l out : List PTok} (h : Tame env l out) :
               · exact Or.inl rfl
               · exact Or.inr (htsub x (List.mem_filter.mp hx).1)
             · intro i hi
-              obtain ⟨la, ea, a', _, hea, ha', _, hro⟩ := hget i hi
+              obtain ⟨la, ea, a', _, hea, ha', _, hro, _⟩ := hget i hi
               simp only [List.getD, List.getElem?_take, hi, if_true, hea, ha', Option.getD_some]
               exact hro.toks
             · intro i ea hea
               rw [List.getElem?_take] at hea
               split at hea
               · rename_i hi
-                obtain ⟨la, ea2, a', _, hea2, ha', _, hro⟩ := hget i hi
+                obtain ⟨la, ea2, a', _, hea2, ha', _, hro, hok⟩ := hget i hi
                 rw [hea2] at hea
                 cases hea
-                exact ⟨a', ha', hro.toks⟩
+                exact ⟨a', ha', hro.toks, hok⟩
               · cases hea
-            · exact hod
             · exact hsub
           obtain ⟨Rs, hsR, hroR⟩ := ihbody (wf_disable hwf) _ hrelb
           rw [specTable_disable] at hsR
@@ -1074,7 +1155,7 @@ theorem tame_spec {env : List Entry} {l out : List PTok} (h : Tame env l out) :
             apply subst_plain ex e.m (largs.take e.m.numParams) (eargs0.take e.m.numParams) _ ?_
               (plainToks_of_wf hwfe) (fun hf => by rw [hfn] at hf; cases hf)
             intro _ i hi
-            obtain ⟨la, ea, a', hla, hea, _, _, _⟩ := hget i hi
+            obtain ⟨la, ea, a', hla, hea, _, _, _, _⟩ := hget i hi
             have hla' : (largs.take e.m.numParams)[i]? = some la := by
               rw [List.getElem?_take]; simp [hi, hla]
             have hea' : (eargs0.take e.m.numParams)[i]? = some ea := by
